@@ -79,6 +79,45 @@ theorem io_blocked_caller_is_served (co : Co → Bool) (sched : List (Actor × E
   | heldW w => have := h.i4.r4 c w hl; simp [hq.2 w, wHolds] at this
   | queued => exact Or.inl (h.i4.r5 c hl)
 
+/-- **An acceptor never parks with a non-empty backlog** (the same for any caller: a reader with data in the kernel, a writer with buffer
+    space). For a listening socket `avail s` is "the backlog is not empty". When every kernel tail has finished and every selector /
+    timer / canceller thread is between two events, and no edge event of `s` is waiting in epoll any more (everything the kernel
+    reported has been processed), a caller cannot be suspended in an operation on `s` while the kernel has something for it: it is in a
+    run queue. The edge-triggered flag says "something HAPPENED since it was last cleared", not "something is there": what makes this
+    true is that every operation tries the system call first, whatever the flag says, and tries it again after every wake-up
+    (`u.reset → u.sys`, `u.store → u.sys`). The seeded change that skips the early try when the reset returned 0:
+    `accept_skipped_syscall_witness`. -/
+theorem accept_never_parks_with_backlog (co : Co → Bool) (sched : List (Actor × Env)) (c : Co) (s : Sock)
+    (hq : Quiescent (run (init co) sched)) (hw : (run (init co) sched).upc c = .wait s)
+    (hb : (run (init co) sched).avail s = true) (hp : (run (init co) sched).pend s = false) :
+    (run (init co) sched).queued c = true := by
+  rcases io_blocked_caller_is_served co sched c s hq hw with h | ⟨_, _, h⟩
+  · exact h
+  · rw [h hb] at hp; cases hp
+
+/-- **Witness for the seeded variant** (`initSkip`: the early system call is made only when `io_flag.swap(0)` returned non-zero): two
+    connections arrive on listener 5 while the acceptor is busy – one edge, delivered by the selector. The first `accept` finds the flag
+    raised, tries and gets a connection (the second one stays queued: `sysDone 0 true`). The second `accept` finds the flag 0, skips the
+    system call and subscribes: everything is quiet, no edge is pending, the backlog is not empty – and the acceptor is suspended, not
+    queued. -/
+theorem accept_skipped_syscall_witness :
+    ∃ sched, Quiescent (run (initSkip fun _ => true) sched) ∧ (run (initSkip fun _ => true) sched).upc 0 = .wait 5 ∧
+             (run (initSkip fun _ => true) sched).avail 5 = true ∧ (run (initSkip fun _ => true) sched).pend 5 = false ∧
+             (run (initSkip fun _ => true) sched).queued 0 = false := by
+  refine ⟨[(.env, .arrive 5), (.w 0, .deliver 5 1), (.w 0, .go),
+    (.u 0, .start 5 true), (.u 0, .go), (.u 0, .sysDone 0 true),
+    (.u 0, .start 5 true), (.u 0, .go), (.u 0, .go),
+    (.k 0, .go), (.k 0, .go), (.k 0, .go), (.k 0, .go)], ?_, by decide, by decide, by decide, by decide⟩
+  constructor
+  · intro k
+    by_cases hk : k = 0
+    · subst hk; decide
+    · simp [run, step, ustep, kstep, wstep, estep, initSkip, init, initCfg, upd, hk, schedule, finish]
+  · intro w
+    by_cases hw : w = 0
+    · subst hw; decide
+    · simp [run, step, ustep, kstep, wstep, estep, initSkip, init, initCfg, upd, hw, schedule, finish]
+
 /-- **Single resume**: the coroutine is a linear token. It is never resumed while it is not switched off (`bad`), never
     scheduled while already queued (`dup`); at any time it is in at most one place – the `co` slot of one socket, the hands of
     one kernel tail or worker that took it, or a run queue – and only while its caller is suspended in that very operation. -/
@@ -184,12 +223,12 @@ theorem datagram_boundaries (evs : List Kern.DEv) :
 
 /-! ### non-vacuity -/
 
-/-- a reader blocks, registers (kernel tail 0: store, re-check 0, cancel registration), data arrives, the selector delivers the
-    edge, takes the coroutine and schedules it; it is resumed, retries and gets 10 bytes -/
+/-- a reader blocks, registers (kernel tail 0: cancel registration, store, flag re-check 0, cancel re-check), data arrives, the selector
+    delivers the edge, takes the coroutine, (finds no timer to disarm) and schedules it; it is resumed, retries and gets 10 bytes -/
 def exRead : List (Actor × Env) :=
   [(.u 0, .start 5 true), (.u 0, .go), (.u 0, .sysAgain true true), (.u 0, .durv 0), (.u 0, .go),
    (.k 0, .go), (.k 0, .go), (.k 0, .go), (.k 0, .go),
-   (.env, .arrive 5), (.w 0, .deliver 5 1), (.w 0, .go),
+   (.env, .arrive 5), (.w 0, .deliver 5 1), (.w 0, .go), (.w 0, .go),
    (.u 0, .resume), (.u 0, .go), (.u 0, .go), (.u 0, .go), (.u 0, .sysDone 10 false)]
 
 example : (run (init fun _ => true) exRead).upc 0 = .done (.val 10) := by decide
@@ -201,12 +240,12 @@ example : (run (init fun _ => true) (exRead.take 10)).slot 5 = some 0 ∧ (run (
 example : (run (init fun _ => true)
     [(.u 0, .start 5 true), (.u 0, .go), (.u 0, .sysAgain true true), (.u 0, .durv 0),
      (.env, .arrive 5), (.w 0, .deliver 5 1), (.w 0, .go),
-     (.u 0, .go), (.k 0, .go), (.k 0, .go), (.k 0, .go)]).upc 0 = .back 5 := by decide
+     (.u 0, .go), (.k 0, .go), (.k 0, .go), (.k 0, .go), (.k 0, .go), (.k 0, .go)]).upc 0 = .back 5 := by decide
 -- a plain thread behind its proxy coroutine, with a 3 ms time-out that fires
 example : (run (init fun _ => false)
     [(.u 1, .start 2 true), (.u 1, .go), (.u 1, .sysAgain true true), (.u 1, .durv 3), (.u 1, .go),
-     (.k 0, .go), (.k 0, .go), (.k 0, .go), (.k 0, .go), (.k 0, .go), (.k 0, .go),
-     (.env, .tick 3000000), (.w 0, .fire 0), (.w 0, .go), (.w 0, .go)]).upc 1 = .done .timedOut := by decide
+     (.k 0, .go), (.k 0, .go), (.k 0, .go), (.k 0, .go), (.k 0, .go), (.k 0, .go), (.k 0, .go),
+     (.env, .tick 3000000), (.w 0, .fire 0), (.w 0, .go), (.w 0, .go), (.w 0, .go)]).upc 1 = .done .timedOut := by decide
 -- streams: two writes split by the kernel, three reads with different buffers, shutdown, EOF
 example : (Kern.run Kern.init [.room 4, .write [1, 2, 3] 2, .write [3] 9, .read 1 9, .room 2, .write [4, 5] 9, .read 10 2, .shutdown,
     .read 10 9, .read 10 9]).rcvd = [1, 2, 3, 4, 5] := by decide
